@@ -21,7 +21,8 @@ def cases(tier, seed):
     # 1 node
     for t in TYPES:
         for name, bbs in (("a", {}), ("u.x", {}), ("u.x", {"u": ["bb", ["x"], []]}), ("u.x", {"u": ["bb", [], ["x"]]}),
-                          ("a", {"u": ["bb", ["x"], []]})):
+                          ("a", {"u": ["bb", ["x"], []]}), ("ux.q", {"u": ["bb", [], []]}), ("uu.x", {"u": ["bb", [], []]}),
+                          ("u1.x", {"u": ["bb", [], []], "u10": ["bb", [], []]}), ("u.x.y", {"u": ["bb", [], []]})):
             for loop in (False, True):
                 for out in (None, False, True):
                     cd = {"name": "c", "nodes": [[name, t, out]], "edges": [[name, name]] if loop else [], "bbs": bbs}
@@ -58,12 +59,32 @@ def cases(tier, seed):
         yield {"kind": "lib", "f": "adder", "w": w}
         yield {"kind": "lib", "f": "mux", "w": w}
         yield {"kind": "lib", "f": "popcount", "w": w}
+    # parser outputs must be lint-clean (netlists in which every net is driven)
+    from vlib import vlog
+    texts = ["xor g(o,a,a);", "assign o = (a ^ a) | b;", "xnor g(o,b,b);", "xor g(o,a,b,a);", "assign o = a ~^ a;",
+             "and g(o,a,b);", "assign o = a ? b : 1'b0;", "xnor g1(w,a,a); and g2(o,w,b);"]
+    for t in texts:
+        yield {"kind": "parse", "text": "module top(a,b,o);\n input a; input b; output o; wire w;\n " + t + "\nendmodule\n"}
+    for i in range(60 if tier == "quick" else 1000):
+        nl = vlog.rand_netlist(rng, n_in=rng.randint(1, 3), n_items=rng.randint(1, 5), depth=2, bb=rng.choice([0, 1]),
+                               repeated_operands=rng.random() < 0.5, exprs_in_gates=rng.random() < 0.3)
+        yield {"kind": "parse", "text": vlog.render(nl, None), "bbs": nl["bbs"]}
     yield {"kind": "lib", "f": "half_adder", "w": 0}
     yield {"kind": "lib", "f": "full_adder", "w": 0}
 
 
 def run_case(case):
     fails = []
+    if case["kind"] == "parse":
+        bbs = [circ.blackbox(k, i, o) for k, (i, o) in sorted(case.get("bbs", {}).items())]
+        try:
+            c = cg.io.verilog_to_circuit(case["text"], "top", blackboxes=bbs)
+        except Exception:
+            return {"nontrivial": False, "failures": []}  # parse failures are C02's business
+        lv = spec.lint_violations(c)
+        if lv:
+            fails.append({"kind": "parser-output-not-lintclean", "msg": f"{lv[:3]}\n{case['text']}"})
+        return {"nontrivial": True, "failures": fails}
     if case["kind"] == "lib":
         w = case["w"]
         f = case["f"]
